@@ -3,6 +3,8 @@ package props
 import (
 	"errors"
 	"fmt"
+	"os"
+	"path/filepath"
 	"runtime"
 	"sort"
 	"strings"
@@ -205,6 +207,7 @@ type syncScenario struct {
 	Assets    []string            `json:"assets"`
 	Source    map[string][]int    `json:"source_days"`
 	TargetLen map[string]int      `json:"target_prefix_len"` // -1 = asset absent from the target
+	Placeholder []string          `json:"zero_byte_placeholder_files"` // file-system target: <name>.csv exists with 0 bytes
 	Explicit  bool                `json:"explicit_asset_list"`
 	Missing   []string            `json:"requested_but_not_in_source"`
 	StartDay  int                 `json:"default_start_day"`
@@ -221,7 +224,7 @@ func mkSnap(day int) *asset.Snapshot {
 func genScenario(r *gen.Rand, nAssets int, target string, workers int) syncScenario {
 	sc := syncScenario{Source: map[string][]int{}, TargetLen: map[string]int{}, Workers: workers, Target: target, Explicit: r.Intn(3) > 0, StartDay: r.Range(0, 12)}
 	for i := 0; i < nAssets; i++ {
-		name := fmt.Sprintf("a%02d", i)
+		name := fmt.Sprintf("a%02d%s", i, []string{"", "s", ".c", "v"}[i%4])
 		sc.Assets = append(sc.Assets, name)
 		n := r.Range(0, 20)
 		d := r.Range(0, 6)
@@ -232,6 +235,10 @@ func genScenario(r *gen.Rand, nAssets int, target string, workers int) syncScena
 		sc.TargetLen[name] = r.Range(-1, n)
 		if !sc.Explicit && sc.TargetLen[name] < 0 {
 			sc.TargetLen[name] = 0 // assets are taken from the target: it must know the name
+		}
+		if target == "filesystem" && sc.TargetLen[name] <= 0 && r.Intn(3) == 0 {
+			sc.TargetLen[name] = 0
+			sc.Placeholder = append(sc.Placeholder, name) // a touch'ed placeholder instead of a header-only file
 		}
 	}
 	if target == "sql" {
@@ -276,10 +283,17 @@ func buildRepos(sc syncScenario) (source asset.Repository, target asset.Reposito
 	if err != nil {
 		return nil, nil, nil, err
 	}
+	placeholder := toSet(sc.Placeholder)
 	for _, name := range sc.Assets {
 		k := sc.TargetLen[name]
 		if k < 0 {
 			continue
+		}
+		if placeholder[name] {
+			if base := reflectBase(tgt); base != "" {
+				os.WriteFile(filepath.Join(base, name+".csv"), nil, 0o600)
+				continue
+			}
 		}
 		var snaps []*asset.Snapshot
 		for _, d := range sc.Source[name][:k] {
